@@ -260,7 +260,7 @@ func c08LongGens() []func(emit func(x c08LongValue)) {
 					for _, sl := range c08CIDLens {
 						tokLens := []int{0}
 						if typ == protocol.PacketTypeInitial {
-							tokLens = c08DataLens
+							tokLens = []int{0, 1, 63, 64, 257} // 257 = 1 + 2^8: aliases 1 when the length is narrowed to 8 bits
 						} else if typ == protocol.PacketTypeRetry {
 							tokLens = []int{1, 63, 64}
 						}
@@ -273,6 +273,9 @@ func c08LongGens() []func(emit func(x c08LongValue)) {
 							for pnl := protocol.PacketNumberLen(1); pnl <= 4; pnl++ {
 								for _, pn := range c08PNBounds[pnl] {
 									for _, pl := range []int{0, 1, 63, 64, 16383 - int(pnl)} {
+										if tl > 64 && (pl != 1 || pn != c08PNBounds[pnl][0]) {
+											continue // the long token: one packet number and payload per packet number length
+										}
 										hh := base
 										hh.Length = protocol.ByteCount(int(pnl) + pl)
 										emit(c08LongValue{h: &ExtendedHeader{Header: hh, PacketNumberLen: pnl, PacketNumber: protocol.PacketNumber(pn)}, payload: pl})
